@@ -120,7 +120,8 @@ PAIRS = [  # (punycode, unicode)
 ]
 P2U = dict(PAIRS)
 U2P = {u: p for p, u in PAIRS}
-NAMES = ["lemonde", "google", "example", "figaro", "lacamargue", "a", "b", "xn--a", "xn--zz--", "x-n", "xn-", "le-monde"]
+NAMES = ["lemonde", "google", "example", "figaro", "lacamargue", "a", "b", "xn--a", "xn--zz--", "x-n", "xn-", "le-monde",
+         "localhosting", "localhost", "fab", "cafe", "bad", "1", "10"]
 SUBS = ["www", "m", "blog", "api", "news", "fr-fr", "a", "b", "home", "business"]
 TLDS = [["com"], ["fr"], ["net"], ["uk", "co"], ["io", "github"], ["рф"], ["xn--p1ai"]]
 PADS = ["", "", "", " ", "\t", "\n", "  ", " ", "　"]
@@ -207,6 +208,14 @@ CORPUS = [
     # counter bookkeeping: prune under a node that keeps a sibling
     {"adds": ["a.a.b", "b.a.b", "b.b", "a.b", "b"], "q": "ab8"},
     {"adds": ["b.a", "a.b.a", "a", "a"], "q": "ab8"},
+    # ordinary hostnames that merely LOOK like the documented-undefined special hosts (they start with
+    # 'localhost' or with four numeric labels, or only use hex digits): they are split into labels like
+    # any other hostname
+    {"adds": ["example.com", "localhosting.fr", "nip.io", "fab.de"],
+     "q": ["http://localhost.example.com/", "localhosted.example.com", "http://www.localhosting.fr/x", "http://10.0.0.1.nip.io/",
+           "http://1.2.3.4.example.com", "https://www.fab.de/", "cafe.fab.de", "http://localhost.evil.org", "http://bad.ac.be"]},
+    {"adds": ["localhost.example.com", "example.com", "10.0.0.1.nip.io", "cafe.be"],
+     "q": ["http://localhost.example.com/", "http://a.localhost.example.com", "http://x.example.com", "http://9.10.0.0.1.nip.io/", "www.cafe.be", "cafe.be"]},
     {"adds": ["télérama.fr", "WWW.xn--tlrama-bvab.fr", " XN--TLRAMA-BVAB.FR\n", "xn--a.fr", "XN--A.fr"], "q": ["xn--tlrama-bvab.fr/x", "http://www.télérama.fr", "http://xn--a.fr", "http://m.XN--a.fr:80/", "fr", ""]},
 ]
 
